@@ -101,6 +101,33 @@ Definition dir_reorder (s : bytes) (xtd ctxfound : Z) (raw : nat -> nat -> Z -> 
 Definition dr_of (xtd ctxfound : Z) (raw : nat -> nat -> Z -> Z -> option rawres) (s : bytes) (ord : list nat) : list nat :=
   match dir_reorder s xtd ctxfound raw ord with Some r => r | None => ord end.
 
+(* ---- the recorded matcher.  harness/probe_ren.c writes down every call of rset_find made along
+   dir_fix's control flow: (beg, end, ctx, answer).  raw_of turns the list into the matcher the
+   model is run with (first record of the call; a call that was not recorded does not match);
+   matcher_ok is the executable form of the hypothesis cm_ok of the theorems for that matcher: every
+   recorded call that dir_match turns into spans gives spans in bounds and a non-empty match.  The
+   driver evaluates it on every case (DirProps.matcher_ok_cm_ok: matcher_ok = true implies cm_ok). *)
+Definition rec_entry := (nat * nat * Z * option rawres)%type.
+
+Fixpoint raw_of (tr : list rec_entry) (b e : nat) (ctx flg : Z) : option rawres :=
+  match tr with
+  | [] => None
+  | (b', e', c', a) :: r =>
+    if (b =? b')%nat && (e =? e')%nat && (ctx =? c')%Z then a else raw_of r b e ctx flg
+  end.
+
+Definition span_okb (b e : nat) (m : mres) : bool :=
+  (b <=? r_beg m)%nat && (r_beg m <=? c_beg m)%nat && (c_beg m <=? c_end m)%nat &&
+  (c_end m <=? r_end m)%nat && (r_end m <=? e)%nat && (b <? r_end m)%nat.
+
+Definition matcher_ok (s : bytes) (tr : list rec_entry) : bool :=
+  forallb (fun en : rec_entry =>
+    let '(b, e, c, _) := en in
+    match dir_match s (uc_chop s) (raw_of tr) b e c with
+    | None => true
+    | Some m => span_okb b e m
+    end) tr.
+
 (* ---- a syntactic nullable analysis of the ERE syntax of regex.c, used only to re-check that no
    configured mark can match the empty string (termination of dir_fix).  true = "may match
    without consuming a character"; anything the analysis cannot read counts as nullable. *)
